@@ -1,7 +1,7 @@
 (* C06 - every key-value backend behaves like the one reference storage semantics.
    Statements only; proofs are `exact` into Storage/SpecLaws.v and C06_Storage/Proofs.v. *)
 From Coq Require Import List NArith ZArith Lia.
-From V Require Import Lib.Lex Lib.SMap Lib.Check Storage.Spec Storage.SpecLaws Gen.Params C06_Storage.Model C06_Storage.Proofs.
+From V Require Import Lib.Lex Lib.SMap Lib.Check Storage.Spec Storage.SpecLaws Gen.Params C06_Storage.Model C06_Storage.Proofs C06_Storage.Scan.
 Import ListNotations.
 Local Open Scope Z_scope.
 
@@ -76,12 +76,17 @@ End Reference.
 
 (* ===== bbolt refines the reference ===== *)
 
-(* Every history of point operations, clock advances and cleaner runs (the cleaner fires inside
-   Advance whenever its hourly timer is due), over clustering columns other than the reserved key
-   {0x00}: each output equals the reference's output unless the interface leaves it open
-   (dont_care: plain Get/GetBatch of a row written with a TTL; QueryTTL with under a second left).
-   PARTIAL: range scans (Read/TTLRead) are excluded from this theorem (point_op); their agreement
-   with the reference is established by the correspondence check only. *)
+(* Every history of operations - point operations, batches, range reads (Read / TTLRead through the
+   cursor scan with its safeKey/unSafeKey translation of keys and bounds), conditional operations,
+   clock advances and cleaner runs (the cleaner fires inside Advance whenever its hourly timer is
+   due) - over clustering columns and bounds other than the reserved key {0x00}: each output equals
+   the reference's output unless the interface leaves it open (dont_care: plain Get/GetBatch/Read
+   touching a row written with a TTL; QueryTTL with under a second left). *)
+Theorem bbolt_refines_reference : forall ops,
+  Forall cc_ok_op ops -> refines_run ([], 0) bb_init ops.
+Proof. exact (fun ops => bbolt_refines_proved ops ([], 0) bb_init R_init). Qed.
+
+(* the same for point operations only, kept as the statement the live-view corollary uses *)
 Theorem bbolt_refines_reference_partial : forall ops,
   Forall cc_ok_op ops -> Forall point_op ops -> refines_run ([], 0) bb_init ops.
 Proof. exact (fun ops => bbolt_refines_point_proved ops ([], 0) bb_init R_init). Qed.
@@ -107,14 +112,15 @@ Qed.
 (* non-vacuity: a history with TTL renewal across a cleaner run meets the hypotheses and computes *)
 Example bbolt_refines_nonvacuous :
   let ops := [OIns [97%N] [1%N] [7%N] 10; OAdvance 5000; OCas [97%N] [1%N] [7%N] [7%N] 7200;
-              OAdvance 3600000; OTTLGet [97%N] [1%N]; OQueryTTL [97%N] [1%N]; OCad [97%N] [] []; OPutBatch [([97%N], [], [])]] in
-  Forall cc_ok_op ops /\ Forall point_op ops /\
+              OAdvance 3600000; OTTLGet [97%N] [1%N]; OQueryTTL [97%N] [1%N]; OCad [97%N] [] []; OPutBatch [([97%N], [], [])];
+              OTTLRead [97%N] [] [1%N]; ORead [97%N] [] []] in
+  Forall cc_ok_op ops /\ True /\
   run_bb bb_init ops = run_spec ([], 0) ops /\
   nth 4 (run_bb bb_init ops) RErr = RGet (Some [7%N]).
 Proof.
   cbn zeta. split; [|split; [|split]].
   - repeat constructor; unfold okcc, null_key; try discriminate; try lia.
-  - repeat constructor.
+  - exact I.
   - vm_compute. reflexivity.
   - vm_compute. reflexivity.
 Qed.
@@ -129,5 +135,6 @@ Print Assumptions insert_if_not_exists_decides.
 Print Assumptions compare_and_swap_decides.
 Print Assumptions compare_and_delete_decides.
 Print Assumptions ttl_visible_until_expiry.
+Print Assumptions bbolt_refines_reference.
 Print Assumptions bbolt_refines_reference_partial.
 Print Assumptions bbolt_live_view.
